@@ -297,6 +297,7 @@ struct Pending {
     impl_out: String,
     what: &'static str,
 }
+use serde_json::Value as _V;
 
 /// evaluate the C15 laws on the implementation for one case; returns (law, message, sequence)
 fn oracles(rep: &mut Report, c: &Case, rng: &mut Rng) -> Vec<(String, Vec<usize>)> {
@@ -513,10 +514,102 @@ fn run_inner(rep: &mut Report) {
             rep.count(&format!("impl.{}.{}", what, out.split(' ').take(if out.starts_with("err") { 2 } else { 1 }).collect::<Vec<_>>().join("_")));
             rep.case(&req, nontrivial(c, &seq));
             reqs.push(req);
-            pend.push(Pending { case_idx: ci, seq, impl_out: out, what });
+            pend.push(Pending { case_idx: ci, seq: seq.clone(), impl_out: out.clone(), what });
+            // the same computation from the file bytes (byte layer of the model)
+            let total: usize = c.gcno.len() + bytes.iter().map(|b| b.len()).sum::<usize>();
+            if what == "compute" && total < 40_000 {
+                let mut rb = format!("computeb {} {}", if c.branch { 1 } else { 0 }, hex_tok(&c.gcno));
+                for b in &bytes {
+                    rb.push(' ');
+                    rb.push_str(&hex_tok(b));
+                }
+                rep.count("tie.bytes");
+                reqs.push(rb);
+                pend.push(Pending { case_idx: ci, seq: seq.clone(), impl_out: out.clone(), what: "compute (bytes)" });
+            }
         }
     }
+    // ---- malformed bytes: truncations and word substitutions of generated files (tie of the byte
+    // layer; the laws of C15 say nothing about these beyond "error, never a partial result")
+    let n_mal = rep.budget(1500, 10);
+    let mut mal: Vec<(String, String, Value)> = Vec::new();
+    let synth: Vec<usize> = (0..cases.len()).filter(|&i| !cases[i].fns.is_empty() && cases[i].gcno.len() < 3000).collect();
+    for _ in 0..n_mal {
+        if synth.is_empty() {
+            break;
+        }
+        let c = &cases[*rng.pick(&synth)];
+        let good: Vec<usize> = (0..c.pool.len()).filter(|&i| !c.bad[i]).collect();
+        let mut gcno = c.gcno.clone();
+        let mut gcdas: Vec<Vec<u8>> = good.iter().take(2).map(|&i| c.pool_bytes[i].clone()).collect();
+        let target_gcda = !gcdas.is_empty() && rng.chance(1, 3);
+        {
+            let buf: &mut Vec<u8> = if target_gcda { let k = rng.below(gcdas.len() as u64) as usize; &mut gcdas[k] } else { &mut gcno };
+            match rng.below(4) {
+                0 => {
+                    let n = rng.below(buf.len() as u64 + 1) as usize;
+                    buf.truncate(n);
+                    rep.count("malformed.truncate");
+                }
+                1 | 2 => {
+                    if buf.len() >= 8 {
+                        let w = rng.below((buf.len() / 4) as u64) as usize * 4;
+                        let old = u32::from_le_bytes(buf[w..w + 4].try_into().unwrap());
+                        let v: u32 = match rng.below(7) {
+                            0 => 0,
+                            1 => 1,
+                            2 => 0x7fff_ffff,
+                            3 => 0x8000_0000,
+                            4 => 0xffff_ffff,
+                            5 => old.wrapping_add(1),
+                            _ => old.wrapping_sub(1),
+                        };
+                        buf[w..w + 4].copy_from_slice(&v.to_le_bytes());
+                        rep.count("malformed.word");
+                    }
+                }
+                _ => {
+                    if !buf.is_empty() {
+                        let i = rng.below(buf.len() as u64) as usize;
+                        buf[i] ^= 1 << rng.below(8);
+                        rep.count("malformed.bitflip");
+                    }
+                }
+            }
+        }
+        // non-UTF-8 names would reach `from_utf8_unchecked` (undefined behaviour): keep them out
+        let r = run_compute(&gcno, &gcdas, c.branch);
+        if let Ok(rs) = &r {
+            if rs.iter().any(|(k, cv)| k.contains('\u{fffd}') || cv.functions.keys().any(|n| n.contains('\u{fffd}'))) {
+                continue;
+            }
+        }
+        let out = show_compute(&r);
+        let mut rb = format!("computeb {} {}", if c.branch { 1 } else { 0 }, hex_tok(&gcno));
+        for b in &gcdas {
+            rb.push(' ');
+            rb.push_str(&hex_tok(b));
+        }
+        rep.count(&format!("malformed.impl.{}", out.split(' ').take(if out.starts_with("err") { 2 } else { 1 }).collect::<Vec<_>>().join("_")));
+        let cj = json!({"origin": "malformed", "branch": c.branch, "gcno": hex(&gcno),
+            "gcdas": gcdas.iter().map(|b| hex(b)).collect::<Vec<_>>(), "bad": [], "model_req": rb.clone(), "check": "bytes"});
+        rep.evaluations += 1;
+        mal.push((rb, out, cj));
+    }
+    for (rb, _, _) in &mal {
+        reqs.push(rb.clone());
+    }
     let answers = run_model_named("gm_c15", &reqs, &rep.workdir, "gcno");
+    let base = pend.len();
+    for (k, (_, out, cj)) in mal.iter().enumerate() {
+        if &answers[base + k] != out {
+            rep.disagreements_checked += 1;
+            let mut cj = cj.clone();
+            cj["impl"] = json!(out);
+            cj["model"] = json!(answers[base + k]);
+            rep.fail("disagreement", None, "Gcno::compute differs from the byte-level model on a corrupted file".into(), cj);
+        }
+    }
     for (i, p) in pend.iter().enumerate() {
         if i % 97 == 0 {
             let cut = |s: &str| if s.len() > 600 { format!("{}…", &s[..600]) } else { s.to_string() };
